@@ -271,6 +271,9 @@ def run(chk: Check, eng: Engine) -> None:
     chk.rule("R11-i", "the hash of every symbol class carries the symbol kind (tree hashes - the identity all caches rely on - are built from hash(symbol))", floor=2)
     from .c10 import symbol_hash_rule
     symbol_hash_rule(chk, eng, "R11-i")
+    chk.rule("R11-j", "no function the evaluation of a constraint reaches is memoised by a decorator whose key leaves out something the function reads", floor=1)
+    from .common_memo import decorated_memo_rule
+    decorated_memo_rule(chk, eng, "R11-j", [f.fq for f in eng.ix.all_functions if f.name in ("fitness", "check") and f.module.startswith("fandango.constraints")], "constraint verdicts")
     chk.rule("R11-g", "quantifiers write their bound variable only into dictionaries they own (copies made in the same call)", floor=4)
     from . import common_fitness as _cfo
     _cfo.owned_binding_rule(chk, eng, "R11-g")
